@@ -43,7 +43,8 @@ RAISE_KINDS = {
     'str': ['raise_before', 'raise_after_log', 'bad_type', 'near_type'],
     'numpy': ['raise_before', 'raise_after_log', 'bad_type', 'near_type'],
     'pandas': ['raise_before', 'raise_after_log', 'bad_type', 'near_type'],
-    'generator': ['raise_before', 'raise_in_generator', 'bad_type'],
+    'generator': ['raise_before', 'raise_in_generator', 'bad_type', 'near_type'],
+    'empty_gen': ['raise_before', 'bad_type', 'near_type'],
     'dir': ['raise_before', 'raise_mid_dir', 'bad_type'],
     'continues': ['raise_before', 'raise_mid_dir'],
     'empty_dir': ['raise_before', 'bad_type'],
